@@ -54,8 +54,9 @@ func errCheckedBefore(r *an.R, rule string, d *an.DeclInfo, g *an.G, fname, what
 				// a path from the assignment to the target that never takes an
 				// edge establishing o == nil (and is not re-assigned) is a violation
 				unchecked := g.Reach(al, true, &an.Search{
-					Target: func(l an.Loc) bool { return l == t },
-					Cut:    func(l an.Loc) bool { return l != t && isAssign(l) },
+					// reaching the target, or overwriting the error on the way to
+					// it, without the == nil edge
+					Target: func(l an.Loc) bool { return l == t || (l != al && isAssign(l) && reachesLoc(g, l, t)) },
 					CutEdge: func(b *cfg.Block, k int) bool {
 						cond := an.CondOf(b)
 						if cond == nil {
@@ -71,7 +72,7 @@ func errCheckedBefore(r *an.R, rule string, d *an.DeclInfo, g *an.G, fname, what
 					},
 				})
 				reaches := g.Reach(al, true, &an.Search{Target: func(l an.Loc) bool { return l == t }, Cut: func(l an.Loc) bool { return l != t && isAssign(l) }})
-				if !reaches {
+				if !reaches && !unchecked {
 					continue
 				}
 				key := fmt.Sprintf("%s/err-checked-before-"+what+"/%s@%s", fname, o.Name(), declOrdinal(info, d.Decl, o))
@@ -81,4 +82,8 @@ func errCheckedBefore(r *an.R, rule string, d *an.DeclInfo, g *an.G, fname, what
 		}
 	}
 	return errVars
+}
+
+func reachesLoc(g *an.G, from, to an.Loc) bool {
+	return from == to || g.Reach(from, true, &an.Search{Target: func(l an.Loc) bool { return l == to }})
 }
